@@ -16,4 +16,12 @@ impl Clone for RegexNode {
     { unimplemented!() }
 }
 
+/// derived Clone of regex::Regex returns an equal value (the follow cache is cloned with it)
+impl Clone for Regex {
+    #[verifier::external_body]
+    fn clone(&self) -> (r: Regex)
+        ensures r == *self
+    { unimplemented!() }
+}
+
 } // verus!
